@@ -14,7 +14,8 @@ Hypotheses: `A.wf`, `A.dupSlice = false`, `A.HermOK` (as in C01), `A.RealTyped` 
 extraction goes through `A.T`), and the named clauses
 * `NoArrPair ids`     — not both positions integer index arrays (`C20_arrayPair_clause_needed`);
 * `NoDupIx A ids`     — the built `Sliced` operator repeats no index (`C20_dupIx_clause_needed`);
-* `EqualLenLists ids` — two index lists have equal length (`C20_listZip_clause_needed`).
+* `EqualLenLists ids` — two index lists have the same positive length (recorded finding
+  `getitem-list-zip`, `C20_listZip_clause_needed`).
 -/
 
 namespace C20
@@ -56,8 +57,8 @@ theorem C20_arrayPair_clause_needed :
     A.getitem ids = .op (.sliced A (.arr [0, 1]) (.arr [1, 0])) ∧
       (∃ v, Op.npIndex A.rows A.cols A.den.f ids = .vec 2 v) ∧
       ¬ GRes.Agree (A.getitem ids) (Op.npIndex A.rows A.cols A.den.f ids) := by
-  simp [Op.getitem, Op.npIndex, Op.rows, Op.cols, Ix.resolve, GRes.wrapAll, GRes.wrap,
-    GRes.Agree]
+  simp [Op.getitem, Op.npIndex, Op.npPaired, Op.bcastIdx, Op.rows, Op.cols, Ix.resolve,
+    GRes.wrapAll, GRes.wrap, GRes.Agree]
 
 /-- `NoDupIx` is needed: `to_dense()` of a `Sliced` operator with a repeated column index goes
 through the scatter `Y[idx] = X` (last write wins) — kernel-level witness: parent `[1 2]`,
@@ -68,15 +69,27 @@ theorem C20_dupIx_clause_needed :
     (slicedMatmat act [0] [0, 0] eyeM).f 0 0 = 0 ∧ slicedDen A [0] [0, 0] 0 0 = 1 := by
   decide
 
-/-- `EqualLenLists` is needed: the code zips the two lists (truncating to the shorter), the
-specification rejects lists of different lengths. -/
+/-- `EqualLenLists` is needed (recorded finding `getitem-list-zip`), three ways:
+* a length-1 list: the code zips and truncates (`A[[0,1],[0]]` is the 1-vector `[A[0,0]]`), NumPy
+  broadcasts the short list (`[A[0,0], A[1,0]]`);
+* lists of different lengths > 1: the code truncates to the shorter one, NumPy raises `IndexError`
+  (shape mismatch);
+* two empty lists: the code raises `ValueError` (`stack` of nothing), NumPy returns the empty
+  vector. -/
 theorem C20_listZip_clause_needed :
     let A : Op Int := .dense .f64 2 2 (fun i j => 2 * i + j)
-    let ids : List GIx := [.list [0, 1], .list [0]]
-    (∃ v, A.getitem ids = .vec 1 v) ∧
-      Op.npIndex A.rows A.cols A.den.f ids = .err "index-error" ∧
-      ¬ GRes.Agree (A.getitem ids) (Op.npIndex A.rows A.cols A.den.f ids) := by
-  simp [Op.getitem, Op.npIndex, Op.rows, Op.cols, GRes.wrap, GRes.Agree]
+    let bc : List GIx := [.list [0, 1], .list [0]]
+    let mm : List GIx := [.list [0, 1, 0], .list [0, 1]]
+    let em : List GIx := [.list [], .list []]
+    ((∃ v, A.getitem bc = .vec 1 v) ∧ (∃ w, Op.npIndex A.rows A.cols A.den.f bc = .vec 2 w) ∧
+        ¬ GRes.Agree (A.getitem bc) (Op.npIndex A.rows A.cols A.den.f bc)) ∧
+      ((∃ v, A.getitem mm = .vec 2 v) ∧ Op.npIndex A.rows A.cols A.den.f mm = .err "index-error" ∧
+        ¬ GRes.Agree (A.getitem mm) (Op.npIndex A.rows A.cols A.den.f mm)) ∧
+      (A.getitem em = .err "error:ValueError" ∧
+        (∃ w, Op.npIndex A.rows A.cols A.den.f em = .vec 0 w) ∧
+        ¬ GRes.Agree (A.getitem em) (Op.npIndex A.rows A.cols A.den.f em)) := by
+  simp [Op.getitem, Op.npIndex, Op.npPaired, Op.bcastIdx, Op.rows, Op.cols, GRes.wrap, GRes.wrapAll,
+    GRes.Agree]
 
 /-- non-vacuity: a nested non-square tree (4 × 2) with a reversed strided slice and an index
 array satisfying all hypotheses and clauses. -/
